@@ -154,8 +154,9 @@ func C17(tier rt.Tier) int {
 	rep := rt.NewReport("C17", tier)
 	paths := []string{"", "aa", "ab", "aaaa", "0a1b", "0a1c", "0b22"}
 	maxKeys, permCap := 3, 3
+	wideCap := 2 // removal sets of tries with more than nine non-root nodes: at most this many nodes
 	if tier == rt.Thorough {
-		maxKeys, permCap = 4, 4
+		maxKeys, permCap, wideCap = 4, 4, 3
 	}
 	if rt.SubRun {
 		// BatchSize = 2: a donor of more than two nodes crosses the batching threshold of the store layer
@@ -176,6 +177,18 @@ func C17(tier rt.Tier) int {
 		}
 	}
 	rec(0, nil)
+	// wide branches (the subsets above never give a branch more than three children): 4, 5 (+ a value on the
+	// branch), 16 children at the root, and a 4-children branch below a 2-children root
+	var w16 []string
+	for _, c := range "0123456789abcdef" {
+		w16 = append(w16, string(c)+"a")
+	}
+	contentsList = append(contentsList,
+		[]string{"0a", "1a", "2a", "3a"},
+		[]string{"", "0a", "1a", "2a", "3a", "4a"},
+		[]string{"a0", "a1", "a2", "a3", "b0"},
+		[]string{"0a0a", "0a1a", "0a2a", "0a3a", "0a4a", "0b"},
+		w16)
 	var cases, lookups, repairs int64
 	var mu sync.Mutex
 	reported := map[string]bool{}
@@ -209,13 +222,14 @@ func C17(tier rt.Tier) int {
 					content[k] = []byte("v" + k)
 					mdl[k] = "v" + k
 				}
+				paths := unionPaths(paths, keys) // lookups: the standard paths and the content's own
 				const origin = 1
 				canon := model.CanonicalMPT(content, origin)
 				ci := walkCanon(canon)
 				nonRoot := ci.nodes[1:]
 				limit := 1 << len(nonRoot)
 				for mask := 0; mask < limit; mask++ {
-					if len(nonRoot) > 9 && popcount(mask) > 3 {
+					if len(nonRoot) > 9 && popcount(mask) > wideCap {
 						continue
 					}
 					removed := map[string]bool{}
@@ -762,4 +776,19 @@ func deepComb(rep *rt.Report) {
 			return
 		}
 	}
+}
+
+func unionPaths(a, b []string) []string {
+	out := append([]string{}, a...)
+	seen := map[string]bool{}
+	for _, x := range a {
+		seen[x] = true
+	}
+	for _, x := range b {
+		if !seen[x] {
+			seen[x] = true
+			out = append(out, x)
+		}
+	}
+	return out
 }
